@@ -78,6 +78,8 @@ def _run(ob, slices, expect_cex=()):
     res = chrun.run_slices(slices, jobs=16)
     for sl, r in zip(slices, res):
         ob.paths += 1
+        ob.ch_conditions += 1
+        ob.ch_definite += r["verdict"] in ("confirmed", "counterexample")
         label = "%s {%s}" % (sl.name, sl.pre)
         if sl.name in expect_cex:
             if r["verdict"] != "counterexample":
